@@ -87,7 +87,9 @@ pub async fn op_cache_roles(sc: Value) -> Value {
         t.meta.lock().unwrap().insert("/m/timestamp.json".into(), ser(&sign(ts, &[&keys[1]]).await));
         t.meta.lock().unwrap().insert("/m/1.root.json".into(), ser(&root));
         let shipped = ser(&root);
-        let dsdir = tempfile::tempdir().unwrap();
+        // a private parent directory: "written next to the datastore" must not depend on what else lives in the system temp dir
+        let private_parent = tempfile::tempdir().unwrap();
+        let dsdir = tempfile::tempdir_in(private_parent.path()).unwrap();
         cases += 1;
         let repo = match RepositoryLoader::new(&shipped, Url::parse("file:///m/").unwrap(), Url::parse("file:///t/").unwrap()).transport(t.clone()).datastore(dsdir.path()).load().await {
             Ok(r) => r,
